@@ -682,7 +682,7 @@ int main(int argc, char **argv)
 	vrt_add_class("dq_state", 2);
 	vrt_add_class("du_state", 3);
 	vrt_add_class("ds_pending_data", 4);
-	vrt_set_hang_seconds(30);
+	vrt_set_hang_seconds(45);   /* progress-based: no record / handler / execution for 45 s */
 	if (g_steer) vrt_set_steer(steer);
 	(void)vrt_tid();
 	pthread_create(&g_prod_th, NULL, producer, NULL);
